@@ -43,7 +43,7 @@ RULE = (
     "over all shapes; tests: every tree appears, chi-square vs equal frequencies (tree level), Hoeffding bound on every Kirchhoff edge marginal"
 )
 LEVEL_TEXT = (
-    "Statistical: outputs of many seeded RNG streams are compared with the exact uniform-spanning-tree model (all trees enumerated on small grids, Kirchhoff edge marginals on larger ones). False-alarm probability fixed at 1e-9 per invocation; biases of a few percent in any tree class or edge marginal are far outside that band at these sample sizes. Evidence, not proof.",
+    "Statistical: outputs of many seeded RNG streams are compared with the exact uniform-spanning-tree model (all trees enumerated on small grids, Kirchhoff edge marginals on larger ones). False-alarm probability fixed at 1e-9 per invocation; biases of a few percent in any tree class or edge marginal are far outside that band at these sample sizes. Evidence, not proof. Quick tier: 60 000 / 150 000 / 240 000 draws on 2x2 / 2x3+3x2 / 3x3 (a +-5 % bias on 2x3 trees is rejected at p ~ 1e-15).",
     "Trusted: NumPy's legacy global RNG is an adequate uniform source; chi-square tail approximation (expected counts >= 500 per cell); Hoeffding's inequality (exact, conservative).",
 )
 
